@@ -85,6 +85,8 @@ def _o_msm(case):
             triples.append((m3, parse_msm(m3), lm2))
         for mm, rr, lmx in triples:
             ident = mm.identity
+            if not (isinstance(rr, tuple) and len(rr) == 3):
+                raise Fail("msm-helper-result-shape", f"{ident} labelmsm={lmx} (NSat {mm.NSat}, NCell {mm.NCell}): parse_msm returned {type(rr).__name__}, not (metadata, satellites, cells)")
             meta_x, sats_x, cells_x = rr
             if meta_x.get("identity") != ident or meta_x.get("sats") != mm.NSat or meta_x.get("cells") != mm.NCell or meta_x.get("station") != mm.DF003:
                 raise Fail("msm-result-changed-by-later-call", f"{ident} labelmsm={lmx}: metadata of an earlier result no longer matches its message after a later parse_msm call")
